@@ -357,9 +357,24 @@ fn add_items_from_ast(ast: &Rc<FileAst>, output: &mut String) {
                         }
                         swrite!(output, "}};\n");
                     }
-                    ImportKind::Exclusion(..) => unimplemented!(), // TODO: calculate inclusion list. Right now it would just be set difference. May change in the future with re-exports
-                    ImportKind::As(..) => unimplemented!(),
-                    ImportKind::Glob => {
+                    ImportKind::As(alias) => {
+                        // the generated code names types without their qualifier, so the
+                        // module's items are brought into scope as well as the alias
+                        swrite!(
+                            output,
+                            "#[allow(unused_imports)]\npub use crate::{} as {};\n",
+                            module_name,
+                            alias.v
+                        );
+                        swrite!(
+                            output,
+                            "#[allow(unused_imports)]\npub use crate::{}::*;\n",
+                            module_name
+                        );
+                    }
+                    // Rust cannot exclude names from a glob import. Importing the excluded ones as
+                    // well is harmless: items of this module take precedence over a glob import
+                    ImportKind::Exclusion(..) | ImportKind::Glob => {
                         // glob import
                         swrite!(
                             output,
